@@ -164,8 +164,10 @@ def micro_c06_scenario(r) -> Dict[str, Any]:
     kind = r.choice(["market", "limit", "stop", "stop_limit"])
     side = r.choice(["buy", "sell"])
     amount = max(q(D(r.choice(["1", "3", "0.5", "12.345678", "0.00012", "250"])), bp), unit(bp))
+    # auto_borrow may be requested although nothing can be lent (no lending strategy): with the reservation available
+    # nothing needs to be borrowed, so the boundary is the same
     order = {"op": "order", "kind": kind, "side": side, "pair": "BTC/USD", "amount": _s(amount),
-             "auto_borrow": False, "auto_repay": False}
+             "auto_borrow": r.random() < 0.3, "auto_repay": False}
     if kind in ("limit", "stop_limit"):
         order["limit"] = _s(max(q(last * D(r.choice(["0.9", "1", "1.1", "3"])), qp), unit(qp)))
     if kind in ("stop", "stop_limit"):
